@@ -25,6 +25,9 @@ Tags == {"t1", "t2"}
 Subjects == {"m1"}
 SubjOf == [m1 |-> None, m2 |-> None, a1 |-> "m1", a2 |-> "m1"]
 NBlobs == [m1 |-> 2, m2 |-> 3, a1 |-> 2, a2 |-> 1]    \* config + layers read by manifestVerifyImage
+RefsOf == [m1 |-> <<"b1", "b2">>, m2 |-> <<"b1", "b2", "b3">>, a1 |-> <<"b1", "b2">>, a2 |-> <<"b1">>]   \* in the order they are read
+Blobs == {"b1", "b2", "b3", "b4"}
+NWrites == [b \in Blobs |-> 1]     \* the harness sends the body from memory: io.Copy hands it to the store in one Write
 
 \* requests
 Put(d, t) == [k |-> "Put", d |-> d, t |-> t, s |-> None]
@@ -32,6 +35,9 @@ Del(d, t) == [k |-> "Del", d |-> d, t |-> t, s |-> None]    \* by digest (t = No
 Refs(s)   == [k |-> "Refs", d |-> None, t |-> None, s |-> s]
 Get(t)    == [k |-> "Get", d |-> None, t |-> t, s |-> None]
 TagsL     == [k |-> "Tags", d |-> None, t |-> None, s |-> None]
+BPut(b)   == [k |-> "BlobPut", d |-> b, t |-> None, s |-> None]     \* monolithic upload POST ?digest=
+BDel(b)   == [k |-> "BlobDel", d |-> b, t |-> None, s |-> None]
+BGet(b)   == [k |-> "BlobGet", d |-> b, t |-> None, s |-> None]
 
 \* the abstract index: tag -> digest, digests with an entry, subject -> list held by its referrers response
 Ix(tags, mans, resp) == [tags |-> tags, mans |-> mans, resp |-> resp]
@@ -56,11 +62,12 @@ SetupState(s) ==
 
 VARIABLES setup, reqs,      \* the episode
           ix, mblobs, rblobs, cache, lock,
+          bblobs,           \* plain blobs present
           procs,            \* per request: pc, locals, result, invocation / return time
           clock,
           sched             \* history: the store calls in the order they were executed, <<process, call>>
-vars == <<setup, reqs, ix, mblobs, rblobs, cache, lock, procs, clock, sched>>
-View == <<setup, reqs, ix, mblobs, rblobs, cache, lock, [i \in DOMAIN procs |-> [procs[i] EXCEPT !.inv = 0, !.ret = 0]],
+vars == <<setup, reqs, ix, mblobs, rblobs, cache, lock, bblobs, procs, clock, sched>>
+View == <<setup, reqs, ix, mblobs, rblobs, cache, lock, bblobs, [i \in DOMAIN procs |-> [procs[i] EXCEPT !.inv = 0, !.ret = 0]],
           \* the order of invocations and returns is all the real time order needs
           {<<i, j>> \in (DOMAIN procs) \X (DOMAIN procs) : procs[i].ret # 0 /\ procs[j].inv # 0 /\ procs[i].ret < procs[j].inv},
           {i \in DOMAIN procs : procs[i].inv # 0}>>
@@ -69,7 +76,7 @@ P0 == [pc |-> "RepoGet", n |-> 0, snap |-> Ix(<<>>, {}, <<>>), old |-> <<>>, new
 
 Init == /\ setup \in Setups /\ reqs \in Combos
         /\ LET s == SetupState(setup) IN ix = s.ix /\ mblobs = s.mblobs /\ rblobs = s.rblobs
-        /\ cache = {} /\ lock = 0 /\ clock = 0 /\ sched = <<>>
+        /\ cache = {} /\ lock = 0 /\ clock = 0 /\ sched = <<>> /\ bblobs = {"b1", "b2", "b3"}
         /\ procs = [i \in DOMAIN reqs |-> P0]
 
 \* one store call of process i: new locals p, the call's name, and the changes to the shared state
@@ -84,7 +91,7 @@ CallW(i, name, p, w) ==
   /\ sched' = Append(sched, <<i, name>>)
   /\ UNCHANGED <<setup, reqs>>
 Call(i, name, p) == CallW(i, name, p, 0)
-Same == UNCHANGED <<ix, mblobs, rblobs, cache, lock>>
+Same == UNCHANGED <<ix, mblobs, rblobs, cache, lock, bblobs>>
 NeedLock(r) == RefLock /\ ((r.k = "Put" /\ SubjOf[r.d] # None) \/ (r.k = "Del" /\ r.d # None))
 \* pc after the step that precedes a critical section: the mutex is taken between two store calls (no call of its own)
 \* the mutex is taken between two store calls (no call of its own): by the step of the call before the critical section when
@@ -112,28 +119,33 @@ RefSteps(i, r, p, after) ==
      /\ Call(i, "BlobCreate", [p EXCEPT !.pc = IF p.new \in rblobs THEN "RIndexInsert" ELSE "RWrite"]) /\ Same
   \/ /\ p.pc = "RWrite" /\ Call(i, "Write", [p EXCEPT !.pc = "RClose"]) /\ Same
   \/ /\ p.pc = "RClose" /\ Call(i, "Close", [p EXCEPT !.pc = "RIndexInsert"])
-     /\ rblobs' = rblobs \cup {p.new} /\ UNCHANGED <<ix, mblobs, cache, lock>>
+     /\ rblobs' = rblobs \cup {p.new} /\ UNCHANGED <<ix, mblobs, cache, lock, bblobs>>
   \/ /\ p.pc = "RIndexInsert"
      /\ ix' = [ix EXCEPT !.resp[s] = p.new]
      /\ IF after = "Done"                                         \* put: the mutex is released when the handler returns
         THEN \E w \in Wake(i) : CallW(i, "IndexInsert", [p EXCEPT !.pc = after], w) /\ lock' = NextLock(i, w)
         ELSE Call(i, "IndexInsert", [p EXCEPT !.pc = after]) /\ UNCHANGED lock
-     /\ UNCHANGED <<mblobs, rblobs, cache>>
+     /\ UNCHANGED <<mblobs, rblobs, cache, bblobs>>
 
 PutSteps(i, r, p) ==
-  \/ /\ p.pc = "RepoGet" /\ Call(i, "RepoGet", [p EXCEPT !.pc = "Verify", !.n = NBlobs[r.d]]) /\ Same
-  \/ /\ p.pc = "Verify" /\ Call(i, "BlobGet", [p EXCEPT !.pc = IF p.n = 1 THEN "BlobCreate" ELSE "Verify", !.n = p.n - 1]) /\ Same
+  \/ /\ p.pc = "RepoGet" /\ Call(i, "RepoGet", [p EXCEPT !.pc = "Verify", !.n = NBlobs[r.d], !.dd = "ok"]) /\ Same
+  \* every reference is read; the push is refused (400) after the last one if any was missing
+  \/ /\ p.pc = "Verify"
+     /\ LET b == RefsOf[r.d][NBlobs[r.d] - p.n + 1]
+            miss == IF b \in bblobs THEN p.dd ELSE "missing"
+        IN Call(i, "BlobGet", [p EXCEPT !.pc = IF p.n > 1 THEN "Verify" ELSE IF miss = "ok" THEN "BlobCreate" ELSE "Done",
+                                        !.n = p.n - 1, !.dd = miss, !.st = IF p.n = 1 /\ miss # "ok" THEN 400 ELSE 0]) /\ Same
   \/ /\ p.pc = "BlobCreate"
      /\ IF r.d \in mblobs
-        THEN Call(i, "BlobCreate", [p EXCEPT !.pc = Enter(i, r, "IndexInsert")]) /\ lock' = TryLock(i, r) /\ UNCHANGED <<ix, mblobs, rblobs, cache>>
+        THEN Call(i, "BlobCreate", [p EXCEPT !.pc = Enter(i, r, "IndexInsert")]) /\ lock' = TryLock(i, r) /\ UNCHANGED <<ix, mblobs, rblobs, cache, bblobs>>
         ELSE Call(i, "BlobCreate", [p EXCEPT !.pc = "Write"]) /\ Same
   \/ /\ p.pc = "Write" /\ Call(i, "Write", [p EXCEPT !.pc = "Close"]) /\ Same
   \/ /\ p.pc = "Close" /\ Call(i, "Close", [p EXCEPT !.pc = Enter(i, r, "IndexInsert")])
-     /\ mblobs' = mblobs \cup {r.d} /\ lock' = TryLock(i, r) /\ UNCHANGED <<ix, rblobs, cache>>
+     /\ mblobs' = mblobs \cup {r.d} /\ lock' = TryLock(i, r) /\ UNCHANGED <<ix, rblobs, cache, bblobs>>
   \/ /\ p.pc = "IndexInsert"
      /\ Call(i, "IndexInsert", [p EXCEPT !.pc = IF SubjOf[r.d] = None THEN "Done" ELSE "RIndexGet", !.st = 201])
      /\ ix' = [ix EXCEPT !.mans = @ \cup {r.d}, !.tags = IF r.t = None THEN @ ELSE With(@, r.t, r.d)]
-     /\ UNCHANGED <<mblobs, rblobs, cache, lock>>
+     /\ UNCHANGED <<mblobs, rblobs, cache, lock, bblobs>>
   \/ (SubjOf[r.d] # None /\ RefSteps(i, r, p, "Done"))
 
 DelSteps(i, r, p) ==
@@ -141,7 +153,7 @@ DelSteps(i, r, p) ==
   \/ /\ p.pc = "IndexGet"
      /\ IF r.d # None
         THEN IF r.d \in ix.mans THEN /\ Call(i, "IndexGet", [p EXCEPT !.pc = Enter(i, r, "MBlobGet"), !.dd = r.d, !.st = 202])
-                                      /\ lock' = TryLock(i, r) /\ UNCHANGED <<ix, mblobs, rblobs, cache>>
+                                      /\ lock' = TryLock(i, r) /\ UNCHANGED <<ix, mblobs, rblobs, cache, bblobs>>
              ELSE Call(i, "IndexGet", [p EXCEPT !.pc = "Done", !.st = 404]) /\ Same
         ELSE IF r.t \in DOMAIN ix.tags THEN Call(i, "IndexGet", [p EXCEPT !.pc = "IndexRemove", !.dd = ix.tags[r.t], !.st = 202]) /\ Same
              ELSE Call(i, "IndexGet", [p EXCEPT !.pc = "Done", !.st = 404]) /\ Same
@@ -152,7 +164,7 @@ DelSteps(i, r, p) ==
      /\ ix' = IF r.d # None
               THEN [ix EXCEPT !.mans = @ \ {r.d}, !.tags = Without(@, {t \in DOMAIN @ : @[t] = r.d})]
               ELSE [ix EXCEPT !.tags = IF r.t \in DOMAIN @ /\ @[r.t] = p.dd THEN Without(@, {r.t}) ELSE @]
-     /\ UNCHANGED <<mblobs, rblobs, cache>>
+     /\ UNCHANGED <<mblobs, rblobs, cache, bblobs>>
 
 ReadSteps(i, r, p) ==
   \/ /\ p.pc = "RepoGet" /\ Call(i, "RepoGet", [p EXCEPT !.pc = "IndexGet"]) /\ Same
@@ -167,12 +179,27 @@ ReadSteps(i, r, p) ==
         ELSE IF cur \in cache THEN Call(i, "IndexGet", [p EXCEPT !.pc = "Done", !.st = 200, !.res = SetOf(cur)]) /\ Same
         ELSE Call(i, "IndexGet", [p EXCEPT !.pc = "BlobGet", !.old = cur]) /\ Same
   \/ /\ p.pc = "BlobGet" /\ r.k = "Refs" /\ Call(i, "BlobGet", [p EXCEPT !.pc = "Done", !.st = 200, !.res = SetOf(p.old)])
-     /\ cache' = cache \cup {p.old} /\ UNCHANGED <<ix, mblobs, rblobs, lock>>
+     /\ cache' = cache \cup {p.old} /\ UNCHANGED <<ix, mblobs, rblobs, lock, bblobs>>
+
+\* blob.go: blobUploadPost (monolithic), blobDelete, blobGet.  The upload releases the repository right after BlobCreate.
+BlobSteps(i, r, p) ==
+  \/ /\ p.pc = "RepoGet" /\ Call(i, "RepoGet", [p EXCEPT !.pc = IF r.k = "BlobPut" THEN "BlobCreate" ELSE r.k]) /\ Same
+  \/ /\ p.pc = "BlobCreate" /\ r.k = "BlobPut"
+     /\ Call(i, "BlobCreate", [p EXCEPT !.pc = "DoneEarly", !.dd = IF r.d \in bblobs THEN "exists" ELSE "new", !.st = 201]) /\ Same
+  \/ /\ p.pc = "DoneEarly" /\ Call(i, "Done", [p EXCEPT !.pc = IF p.dd = "exists" THEN "End" ELSE "Write", !.n = NWrites[r.d]]) /\ Same
+  \/ /\ p.pc = "Write" /\ r.k = "BlobPut" /\ Call(i, "Write", [p EXCEPT !.pc = IF p.n = 1 THEN "Verify" ELSE "Write", !.n = p.n - 1]) /\ Same
+  \/ /\ p.pc = "Verify" /\ r.k = "BlobPut" /\ Call(i, "Verify", [p EXCEPT !.pc = "Close"]) /\ Same
+  \/ /\ p.pc = "Close" /\ r.k = "BlobPut" /\ Call(i, "Close", [p EXCEPT !.pc = "End"])
+     /\ bblobs' = bblobs \cup {r.d} /\ UNCHANGED <<ix, mblobs, rblobs, cache, lock>>
+  \/ /\ p.pc = "BlobDel" /\ Call(i, "BlobDelete", [p EXCEPT !.pc = "Done", !.st = IF r.d \in bblobs THEN 202 ELSE 404])
+     /\ bblobs' = bblobs \ {r.d} /\ UNCHANGED <<ix, mblobs, rblobs, cache, lock>>
+  \/ /\ p.pc = "BlobGet" /\ r.k = "BlobGet" /\ Call(i, "BlobGet", [p EXCEPT !.pc = "Done", !.st = IF r.d \in bblobs THEN 200 ELSE 404]) /\ Same
 
 Step(i) ==
   LET r == reqs[i]
       p == procs[i]
-  IN \/ (r.k = "Put" /\ PutSteps(i, r, p))
+  IN \/ (r.k \in {"BlobPut", "BlobDel", "BlobGet"} /\ BlobSteps(i, r, p))
+     \/ (r.k = "Put" /\ PutSteps(i, r, p))
      \/ (r.k = "Del" /\ DelSteps(i, r, p))
      \/ (r.k \in {"Refs", "Get", "Tags"} /\ ReadSteps(i, r, p))
      \/ (p.pc = "Done" /\ Call(i, "Done", [p EXCEPT !.pc = "End"]) /\ Same)
@@ -185,13 +212,19 @@ Spec == Init /\ [][Next]_vars
 \* the sequential meaning of the requests (what Registry.tla says about them, on this abstraction)
 SeqApply(st, r) ==
   CASE r.k = "Put" ->
-         [ix |-> [tags |-> IF r.t = None THEN st.tags ELSE With(st.tags, r.t, r.d), mans |-> st.mans \cup {r.d},
-                  refs |-> IF SubjOf[r.d] = None THEN st.refs ELSE [st.refs EXCEPT ![SubjOf[r.d]] = @ \cup {r.d}]],
+         IF ~(SetOf(RefsOf[r.d]) \subseteq st.blobs) THEN [ix |-> st, st |-> 400, res |-> {}]
+         ELSE
+         [ix |-> [st EXCEPT !.tags = IF r.t = None THEN st.tags ELSE With(st.tags, r.t, r.d), !.mans = st.mans \cup {r.d},
+                  !.refs = IF SubjOf[r.d] = None THEN st.refs ELSE [st.refs EXCEPT ![SubjOf[r.d]] = @ \cup {r.d}]],
           st |-> 201, res |-> {}]
+    [] r.k = "BlobPut" -> [ix |-> [st EXCEPT !.blobs = @ \cup {r.d}], st |-> 201, res |-> {}]
+    [] r.k = "BlobDel" -> IF r.d \in st.blobs THEN [ix |-> [st EXCEPT !.blobs = @ \ {r.d}], st |-> 202, res |-> {}]
+                          ELSE [ix |-> st, st |-> 404, res |-> {}]
+    [] r.k = "BlobGet" -> [ix |-> st, st |-> IF r.d \in st.blobs THEN 200 ELSE 404, res |-> {}]
     [] r.k = "Del" /\ r.d # None ->
          IF r.d \notin st.mans THEN [ix |-> st, st |-> 404, res |-> {}]
-         ELSE [ix |-> [tags |-> Without(st.tags, {t \in DOMAIN st.tags : st.tags[t] = r.d}), mans |-> st.mans \ {r.d},
-                       refs |-> IF SubjOf[r.d] = None THEN st.refs ELSE [st.refs EXCEPT ![SubjOf[r.d]] = @ \ {r.d}]],
+         ELSE [ix |-> [st EXCEPT !.tags = Without(st.tags, {t \in DOMAIN st.tags : st.tags[t] = r.d}), !.mans = st.mans \ {r.d},
+                       !.refs = IF SubjOf[r.d] = None THEN st.refs ELSE [st.refs EXCEPT ![SubjOf[r.d]] = @ \ {r.d}]],
                st |-> 202, res |-> {}]
     [] r.k = "Del" /\ r.d = None ->
          IF r.t \notin DOMAIN st.tags THEN [ix |-> st, st |-> 404, res |-> {}]
@@ -200,7 +233,9 @@ SeqApply(st, r) ==
     [] r.k = "Get"  -> IF r.t \in DOMAIN st.tags THEN [ix |-> st, st |-> 200, res |-> {st.tags[r.t]}] ELSE [ix |-> st, st |-> 404, res |-> {}]
     [] r.k = "Tags" -> [ix |-> st, st |-> 200, res |-> DOMAIN st.tags]
 
-AbsOf(x) == [tags |-> x.tags, mans |-> x.mans, refs |-> [s \in Subjects |-> IF x.resp[s] = NoResp THEN {} ELSE SetOf(x.resp[s])]]
+AbsOf2(x, bl) == [tags |-> x.tags, mans |-> x.mans, refs |-> [s \in Subjects |-> IF x.resp[s] = NoResp THEN {} ELSE SetOf(x.resp[s])],
+                  blobs |-> bl]
+AbsOf(x) == AbsOf2(x, bblobs)
 RECURSIVE SeqRun(_, _, _)
 \* runs the requests in the order given; TRUE iff every response is the observed one and the final state is `final`
 SeqRun(st, order, final) ==
@@ -210,13 +245,13 @@ SeqRun(st, order, final) ==
        IN /\ \/ o.st = procs[i].st
              \* reading: a delete that was acknowledged although a concurrent delete had just removed its target is not
              \* held against the registry (both clients asked for the same final state and got it)
-             \/ (reqs[i].k = "Del" /\ procs[i].st = 202 /\ o.st = 404)
+             \/ (reqs[i].k \in {"Del", "BlobDel"} /\ procs[i].st = 202 /\ o.st = 404)
           /\ (procs[i].st = 200 => o.res = procs[i].res) /\ SeqRun(o.ix, Tail(order), final)
 Orders == {q \in [1..Len(reqs) -> DOMAIN reqs] :
              /\ \A a, b \in DOMAIN q : a # b => q[a] # q[b]
              \* real time order: a request that returned before another was invoked comes first
              /\ \A a, b \in DOMAIN q : (procs[q[b]].ret < procs[q[a]].inv) => b < a}
-Linearizable == Quiet => \E q \in Orders : SeqRun(AbsOf(SetupState(setup).ix), q, AbsOf(ix))
+Linearizable == Quiet => \E q \in Orders : SeqRun(AbsOf2(SetupState(setup).ix, {"b1", "b2", "b3"}), q, AbsOf(ix))
 \* the mutex is only held inside a critical section and every request ends (no deadlock between lock and calls)
 LockFree == Quiet => lock = 0
 NoStuck == ~Quiet => ENABLED Next
